@@ -189,6 +189,9 @@ func (r *FileRestorer) updateImports() error {
 	// a list of all the imports that will be in the imports block after the update
 	importsRequired := map[string]bool{}
 
+	// set when an import spec holds a path that is not a valid string literal
+	var invalidPath error
+
 	dst.Inspect(r.file, func(n dst.Node) bool {
 		switch n := n.(type) {
 		case *dst.Ident:
@@ -206,14 +209,24 @@ func (r *FileRestorer) updateImports() error {
 				return true
 			}
 			// if this block has 1 spec and it's the "C" import, ignore it.
-			if len(n.Specs) == 1 && mustUnquote(n.Specs[0].(*dst.ImportSpec).Path.Value) == "C" {
-				hasCgoBlock = true
-				return true
+			if len(n.Specs) == 1 {
+				if p, err := strconv.Unquote(n.Specs[0].(*dst.ImportSpec).Path.Value); err == nil && p == "C" {
+					hasCgoBlock = true
+					return true
+				}
 			}
 			blocks = append(blocks, n)
 
 		case *dst.ImportSpec:
-			path := mustUnquote(n.Path.Value)
+			path, err := strconv.Unquote(n.Path.Value)
+			if err != nil {
+				// A tree decorated from a file with syntax errors can hold an import spec whose
+				// path is not a string literal. Report it instead of panicking further down.
+				if invalidPath == nil {
+					invalidPath = fmt.Errorf("invalid import path %s: %v", n.Path.Value, err)
+				}
+				return true
+			}
 			if n.Name == nil {
 				importsFound[path] = ""
 			} else {
@@ -226,6 +239,10 @@ func (r *FileRestorer) updateImports() error {
 		}
 		return true
 	})
+
+	if invalidPath != nil {
+		return invalidPath
+	}
 
 	// resolved names of all packages in use
 	resolved := map[string]string{}
